@@ -9,6 +9,16 @@
                 T2 correspondence of the extracted model (coq/TypesMore.v) against lyd_new_term / lyd_value_compare /
                 sorted insertion, with witness() = RFC 7950 section 9 reading written independently in Python.
 
+  Types2Rfc     oracle: the same cases judged against the RFC 7950 section 9 / RFC 4648 reading written in Python.
+
+Tags of the listed findings (known_findings.d/types2.json); anything else is reported untagged (None):
+  binary-pad-bits       base64 text with non-zero unused bits kept as canonical string (equal values, different strings)
+  union-member-eq       union values of different member types with the same canonical string are not equal
+  str-nonchar           noncharacters U+FDD0..FDEF / U+nFFFE,F accepted in strings
+  yang-plane4-char      the YANG parser rejects plane-4 characters (schema default differs from data)
+  dt-str2time-overread  ly_time_str2time reads past the end of a truncated date-and-time value (ASan runs)
+  json-int64-base0      retired: fixed in /repo by 5c9a53f (a reappearance is reported as a violation)
+
 Type names are those of the table TYPES in impl/t_types2.c (module types2, prefix t2)."""
 import base64
 import re
@@ -503,7 +513,11 @@ class SourceIndep:
         T, vj = f[1], unhex(f[2])
         vx = vj if f[3] == "=" else unhex(f[3])
         if out.startswith("CRASH") or out == "TIMEOUT":
-            return None, "value %r of type %s: %s %s" % (vj, T, out, getattr(self, "last_err", "")[-1500:])
+            err = getattr(self, "last_err", "")
+            tag = None
+            if T == "dt" and out.startswith("CRASH") and "ly_time_str2time" in err and "AddressSanitizer" in err:
+                tag = "dt-str2time-overread"
+            return tag, "value %r of type %s: %s %s" % (vj, T, out, err[-1500:])
         tok = dict(t.split("=", 1) for t in out.split(" ") if "=" in t)
         if "vv" not in tok or tok["vv"] in ("?", "NA"):
             return None, "driver failure on %r (%s): %s" % (vj, T, out[:300])
